@@ -747,7 +747,20 @@ class Interp:
                 return self.len_of_ref(a), None
             return top_of(lhs['ty']), None
         if k == 'cast':
-            return self.cast(self.operand(st, rv['a']), rv), None
+            a = self.operand(st, rv['a'])
+            if self.collecting and rv.get('k') == 'IntToInt' and rv['a'].get('o') in ('copy', 'move'):
+                # a narrowing / sign-changing integer cast is an obligation of the canonical-form and term readings (they treat `as` as the identity
+                # wherever it cannot change the value): record it as a site, discharged when the operand's interval fits the target type
+                src = tyinfo(rv['a']['p'].get('ty', '')); dst = tyinfo(rv['to']['s'])
+                if src[0] == 'int' and dst[0] == 'int':
+                    slo, shi = int_range(src[1], src[2]); dlo, dhi = int_range(dst[1], dst[2])
+                    if not (dlo <= slo and shi <= dhi) and not (rv['a']['p'].get('ty') == 'usize' and rv['to']['s'] == 'isize'):
+                        ok = a.k == 'int' and dlo <= a.lo and a.hi <= dhi
+                        if a.k == 'bool' or a.k == 'enum': ok = True
+                        span = getattr(self, '_cur_span', None) or {'file': '?', 'line': 0}
+                        self.sites.append(Site(self.name, self._cur_bb, 'cast:%s->%s' % (rv['a']['p'].get('ty'), rv['to']['s']), ok,
+                                               None if ok else 'the operand range %s does not fit %s: the cast can change the value' % (a, rv['to']['s']), span, [repr(a)]))
+            return self.cast(a, rv), None
         if k in ('ref', 'rawptr'):
             p = rv['p']
             # reborrow `&*x` keeps the identity of x
@@ -1281,6 +1294,7 @@ class Interp:
         blk = self.blocks[bb]
         for s in blk['stmts']:
             if s['s'] == 'assign':
+                self._cur_span = s.get('span')
                 self.assign(st, s)
             elif s['s'] == 'setdiscr':
                 key = self.pkey(st, s['p'])
